@@ -137,9 +137,14 @@ def run(r):
         "operands of both/bracket are modelled as run on exactly their arguments (C02_sig_sound justifies this)",
     ]
     r.assumptions += ["states are admissible: arrays well-formed, integers below 2^53 in magnitude, valid code points (st_okb)",
-                      "F succeeds on the state (domain of F); couple on equal shapes/types, rotate by a scalar, +c/-c with a literal integer c",
-                      "catalogue covered by the theorems: identity, flip, neg, not, reverse, box/unbox, fix/unfix, couple/uncouple, +c, -c, rotate/anti-rotate by a literal, "
-                      "closed under sequencing, dip, both/un-both, bracket/un-bracket; everything else (transpose, join, ×c ÷c, bits, utf8, on/by, rows, fill, algebraic re-derivations) is covered by the search only"]
+                      "F succeeds on the state (domain of F); couple on equal shapes/types, rotate by a scalar, +c/-c with a literal integer c, join / un-join of a scalar and a list",
+                      "catalogue covered by the theorems: identity, flip, neg, not, reverse, box/unbox, fix/unfix, couple/uncouple, join/un-join, +c, -c, rotate/anti-rotate by a literal, "
+                      "closed under sequencing (incl. the un-join rule: every piece before a join inverted in place, in reverse order), dip, both/un-both, bracket/un-bracket; "
+                      "everything else (transpose, join-with-literal template, chain links `⊙⊂` and counted un-joins, ×c ÷c, ˜-c, bits, utf8, on/by, rows, fill, the algebra solver's re-derivations) "
+                      "is covered by the search and the directed families only",
+                      "the records C03_*_refuted_pre are about models of OLD engines (before 8f54207; at 8f54207), kept with their regression inputs",
+                      "anti-inverses are judged for dyadic blocks only (the property's quantifier); anti of composites is counted",
+                      "chains of joins with a bare `⊙⊂` link return that part as a one-row list: such terms are outside the calibrated domain of the random search and covered by the directed family"]
     if not r.harness(["c03"]):
         return
     r.proofs()
